@@ -14,7 +14,8 @@ import (
 )
 
 // consumer-side automaton of C09:  Idle --send S--> Waiting --ack handled/v1--> Idle
-//                                   Waiting --ack bounced--> Backoff --send S (after delay)--> Waiting
+//
+//	Waiting --ack bounced--> Backoff --send S (after delay)--> Waiting
 type c09state struct {
 	state    string // idle | waiting | backoff
 	inFlight []byte // data of the slash packet in flight / bounced
@@ -30,7 +31,9 @@ type monC09c struct {
 	st map[string]*c09state
 }
 
-func init() { registerMonitor(func(w *World) Monitor { return &monC09c{w: w, st: map[string]*c09state{}} }) }
+func init() {
+	registerMonitor(func(w *World) Monitor { return &monC09c{w: w, st: map[string]*c09state{}} })
+}
 
 func (m *monC09c) Name() string { return "C09c" }
 
